@@ -2,7 +2,7 @@
 # usage: tools/benign_run.sh <patch.diff|-> [IDs...]  -- apply a behaviour-preserving change to a scratch worktree and require every check to stay silent
 # ("-" = the worktree /tmp/wt-benign was already edited by hand). Prints VIOLATION / CHECKER-ERROR lines only; exit 0 when silent.
 P="$1"; shift
-W=/tmp/wt-benign
+W=${WTB:-/tmp/wt-benign}
 if [ ! -d "$W" ]; then git -C /repo worktree add -q --detach "$W" HEAD || exit 3; fi
 if [ "$P" != "-" ]; then
   git -C "$W" checkout -q --detach "$(git -C /repo rev-parse HEAD)" 2>/dev/null
